@@ -400,6 +400,30 @@ theorem C16_valuestruct_roundtrip (c : CodecCfg) (v : ValueStruct) (he : v.expir
   rw [h3]
   simp
 
+/-- `ValueStruct.EncodedSize()` is exactly the number of bytes `EncodeValue` writes, so a buffer
+of `EncodedSize()` bytes (arena, skiplist, ART, SST block) decodes back to the value with no
+trailing byte; `Entry.EncodedSize()` is the value length plus the varint widths of meta and
+expiry. For all field values. -/
+theorem C16_encoded_size (v : ValueStruct) (he : v.expiresAt < two64) (e : Entry) (hm : e.mt < two64)
+    (hx : e.expiresAt < two64) :
+    valueEncodedSize v = (encodeValue v).length ∧
+    entryEncodedSize e = e.value.length + (putUvarint e.mt).length + (putUvarint e.expiresAt).length := by
+  unfold valueEncodedSize entryEncodedSize encodeValue
+  rw [sizeVarint_eq _ he, sizeVarint_eq _ hm, sizeVarint_eq _ hx]
+  refine ⟨?_, rfl⟩
+  simp only [List.length_append, List.length_singleton, List.length_cons, List.length_nil]
+  omega
+
+/-- … hence: allocate `EncodedSize()` bytes, `EncodeValue` into them, `DecodeValue` all of them
+(what arena/skiplist/ART/SST builder do) returns the value. -/
+theorem C16_valuestruct_sized_roundtrip (c : CodecCfg) (v : ValueStruct) (he : v.expiresAt < two64) :
+    decodeValue c ((encodeValue v ++ List.replicate (valueEncodedSize v - (encodeValue v).length) 0).take
+      (valueEncodedSize v)) = .ok v := by
+  have h := (C16_encoded_size v he ⟨[], [], 0, 0⟩ (by simp [two64]) (by simp [two64])).1
+  rw [h]
+  simp only [Nat.sub_self, List.replicate_zero, List.append_nil, List.take_length]
+  exact C16_valuestruct_roundtrip c v he
+
 /-- A checked `DecodeValue` never panics (hypothetical repair: the function has no error
 result today). -/
 theorem C16_valuestruct_safe (c : CodecCfg) (hc : c.vsDecodeChecked = true) (buf : Bytes) :
